@@ -178,7 +178,14 @@ func (s *kState) ShiftVotingToCommitting(nhd nextHeightDetails) {
 	// to signal the state machine to not spend time in commit wait.
 	// But we won't send that signal until we're at the end of the shift.
 	h, heightCommittedCh := s.StateMachineViewManager.HeightCommittedChan()
-	if h != s.Committing.Height {
+
+	// The state machine may also have gone on to a later round of the height that is being committed now
+	// (for instance after a local timeout, just before the deciding precommits arrived).
+	// No view of its round will ever change again, so it needs the signal too:
+	// it abandons its round, and its next round entrance is answered with the committed header.
+	leftBehind := h == s.Voting.Height && s.StateMachineViewManager.R() > s.Voting.Round
+
+	if h != s.Committing.Height && !leftBehind {
 		heightCommittedCh = nil
 	}
 
@@ -250,6 +257,10 @@ func (s *kState) ShiftVotingToCommitting(nhd nextHeightDetails) {
 	// we conditionally signal to the state machine that the height has been committed.
 	if heightCommittedCh != nil {
 		close(heightCommittedCh)
+
+		// The channel belongs to the state machine's current round entrance,
+		// which can still be current at the next height shift; it must not be closed twice.
+		s.StateMachineViewManager.ClearHeightCommittedChan()
 	}
 }
 
